@@ -192,6 +192,13 @@ class C04(HistPlan):
     thorough = dict(dbg=120000, rel=60000, off=20000, nostd=20000, miri=96, miri_ops=140, ops=300)
     assumptions = COMMON_ASSUME + ["count accessors are compared with the model's number of owning handles (raw pointers handed out count as owners)"]
 
+    def jobs(self, tier, seed):
+        j = HistPlan.jobs(self, tier, seed)
+        # the uninitialised-construction conversions (assume_init on sole and shared handles) must not move the count either
+        j += simple_jobs("dbg", ["uninit", "seed=%d" % seed, "maxlen=8"], ("C04",))
+        j += simple_jobs("rel", ["uninit", "seed=%d" % seed, "maxlen=8"], ("C04",))
+        return j
+
     def coverage(self, counts, sets, samples, other, results):
         return dict(
             evaluations=prefix_sum(counts, "count_obs."),
@@ -707,13 +714,6 @@ class C11(ShapesPlan):
 class C12(ShapesPlan):
     prop = "C12"
     fams = "u"
-
-    def jobs(self, tier, seed):
-        j = ShapesPlan.jobs(self, tier, seed)
-        # a union's ==, != and Debug run user code: a panic in there must leave the counts of both allocations alone
-        j += simple_jobs("dbg", ["faults", "seed=%d" % seed, "part=cmp", "only=3"], ("C12",))
-        j += simple_jobs("rel", ["faults", "seed=%d" % seed, "part=cmp", "only=3"], ("C12",))
-        return j
     rule = ("all 13x13 ordered pairs of sized shapes {u8,u16,[u8;3],u64,[u8;9],(u64,u8),[u8;33],A16,A32,A64,(),ZA16,ZD} x both constructors x seeded 6-step scripts of "
             "clone/drop/borrow.clone_arc on the union interleaved with plain-Arc operations on the same allocations; variant accessors, payload address, counts on the right allocation, "
             "right destructor and layout at the last release through the union (shadow allocator), one-word size + niche, different variants never equal; "
@@ -736,6 +736,9 @@ class C12(ShapesPlan):
             j += shapes_jobs("asan", "u", seed, p, nshards=8, extra=["scripts=8"])
             j += miri_shapes_jobs("u", seed, p, 96, 1, extra=["scripts=2"])
             j += hist_jobs("dbg", 40000, 300, seed, (), (), nshards=8)
+        # a union's ==, != and Debug run user code: a panic in there must leave the counts of both allocations alone
+        j += simple_jobs("dbg", ["faults", "seed=%d" % seed, "part=cmp", "only=3"], p)
+        j += simple_jobs("rel", ["faults", "seed=%d" % seed, "part=cmp", "only=3"], p)
         return j
 
     def required(self, counts, sets, other):
